@@ -82,6 +82,8 @@ func (st *state) dispatch(toks []string) (string, string) {
 		return st.connect(toks[1]), ""
 	case "resp":
 		return st.respOp(toks)
+	case "scanall":
+		return st.scanAll(toks)
 	}
 	return "bad-op", ""
 }
